@@ -13,6 +13,7 @@ pub mod hedge;
 pub mod ratelimiter;
 pub mod reconnect;
 pub mod retry;
+pub mod svcthreads;
 pub mod threads;
 pub mod timelimiter;
 
